@@ -16,6 +16,10 @@ mcFresh  == {"t0", "t1"}
 (* s0 can pay three submissions, s1 one, s2 none *)
 mcInitialUnits == {[a \in mcFunded \cup mcFresh |-> CASE a = "s0" -> 3 [] a = "s1" -> 1 [] OTHER -> 0]}
 
+(* the larger universe of the thorough design run (the behaviours for the harness always use the one above) *)
+mcFreshT == {"t0", "t1", "t2"}
+mcInitialUnitsT == {[a \in mcFunded \cup mcFreshT |-> CASE a = "s0" -> 3 [] a = "s1" -> 2 [] OTHER -> 0]}
+
 VARIABLE hist
 mcvars == <<vars, hist>>
 
